@@ -516,6 +516,14 @@ fn gen_text(rng: &mut Rng) -> Vec<u8> {
     }
 }
 
+/// texts that the coercions of `convert_value_raw` parse (booleans, integers of every width)
+const COERCE_TEXT: &[&str] = &[
+    "true", "false", "t", "f", "T", "yes", "No", "y", "n", "0", "1", "-7", "maybe", "TRUE", "\u{ff54}\u{ff52}\u{ff55}\u{ff45}", "+5", "007", "-0", "+", "-",
+    " 5", "5 ", "99999999999999999999", "2147483647", "2147483648", "-2147483648", "-2147483649", "4294967295", "4294967296",
+    "9223372036854775807", "9223372036854775808", "-9223372036854775808", "-9223372036854775809", "18446744073709551615",
+    "18446744073709551616", "-1", "1_0", "0x10", "\u{661}\u{662}", "1e3", "FRUIT_OLIVE", "fruit_tomato", "PHONE_TYPE_HOME",
+];
+
 fn gen_bad_utf8(rng: &mut Rng) -> Vec<u8> {
     const BAD: &[&[u8]] = &[
         b"\xff", b"a\x80b", b"\xc3", b"\xe2\x82", b"\xf0\x9f\x98", b"\xed\xa0\x80", b"\xc0\xaf", b"\xf4\x90\x80\x80",
@@ -556,10 +564,14 @@ fn gen_int_for(rng: &mut Rng, k: &Kind, clean: bool) -> i64 {
 fn gen_single(rng: &mut Rng, k: &Kind, depth: u32, clean: bool) -> Value {
     if !clean && rng.chance(1, 6) {
         // a value of an arbitrary other kind (coercions / type errors)
-        return match rng.below(5) {
+        return match rng.below(8) {
             0 => Value::Bytes(gen_text(rng).into()),
             1 => Value::Integer(rng.range(-2, 300)),
             2 => Value::Boolean(rng.chance(1, 2)),
+            3 | 4 => Value::Bytes(rng.pick(COERCE_TEXT).as_bytes().to_vec().into()),
+            5 => Value::Regex(vrl::value::ValueRegex::new(std::sync::Arc::new(
+                regex::Regex::new(*rng.pick(&["a+", "^x$", "", "[0-9]", "7"])).unwrap(),
+            ))),
             _ => gen_value(rng, 1, SIMPLE_KEYS),
         };
     }
@@ -642,6 +654,72 @@ fn gen_field(rng: &mut Rng, f: &FieldDescriptor, depth: u32, clean: bool) -> Val
         Value::Array((0..rng.below(4)).map(|_| gen_single(rng, &f.kind(), depth, clean)).collect())
     } else {
         gen_single(rng, &f.kind(), depth, clean)
+    }
+}
+
+/// edge values for one field (single occurrence, or wrapped in the field's container)
+fn edge_values(f: &FieldDescriptor) -> Vec<Value> {
+    let bytes = |b: &[u8]| Value::Bytes(b.to_vec().into());
+    let single = |k: &Kind| -> Vec<Value> {
+        match k {
+            Kind::Double | Kind::Float => [
+                0u64, 1 << 63, 0x3ff8000000000000, 0x3fb999999999999a, 0x3fb99999a0000000, 0x7ff0000000000000, 0xfff0000000000000,
+                0x47efffffe0000000, 0x47efffffffffffff, 0x36a0000000000000, 0x3690000000000000, 1, 0x7fefffffffffffff,
+            ]
+            .iter()
+            .map(|b| float(f64::from_bits(*b)))
+            .collect(),
+            Kind::Bool => vec![Value::Boolean(false), Value::Boolean(true)],
+            Kind::String | Kind::Bytes => {
+                vec![bytes(b""), bytes(b"a"), bytes("h\u{e9}".as_bytes()), bytes(b"\xff"), bytes(b"\xe2\x82"), bytes(b"\xed\xa0\x80")]
+            }
+            Kind::Enum(ed) => {
+                let mut out = Vec::new();
+                for v in ed.values() {
+                    out.push(bytes(v.name().as_bytes()));
+                    out.push(bytes(v.name().to_ascii_lowercase().as_bytes()));
+                    out.push(Value::Integer(i64::from(v.number())));
+                }
+                out.push(Value::Integer(-1));
+                out.push(Value::Integer(99));
+                out.push(Value::Integer(4294967296));
+                out.push(bytes(b"NOPE"));
+                out
+            }
+            Kind::Message(_) => vec![Value::Object(ObjectMap::new())],
+            _ => edge_ints().iter().map(|i| Value::Integer(*i)).chain([Value::Integer(4294967295), Value::Integer(-2147483649)]).collect(),
+        }
+    };
+    if f.is_map() {
+        let Kind::Message(entry) = f.kind() else { unreachable!() };
+        let vk = entry.map_entry_value_field().kind();
+        let mut out = vec![Value::Object(ObjectMap::new())];
+        let val = single(&vk).into_iter().next().unwrap_or(Value::Null);
+        for k in [
+            "0", "1", "-1", "01", "+1", "-0", "true", "false", "TRUE", "", "a", "4294967295", "4294967296", "2147483648", "-2147483649",
+            "18446744073709551615", "18446744073709551616", "9223372036854775808",
+        ] {
+            let mut m = ObjectMap::new();
+            m.insert(k.into(), val.clone());
+            out.push(Value::Object(m));
+        }
+        for x in single(&vk) {
+            let mut m = ObjectMap::new();
+            m.insert("1".into(), x.clone());
+            m.insert("true".into(), x);
+            out.push(Value::Object(m));
+        }
+        out
+    } else if f.is_list() {
+        let xs = single(&f.kind());
+        let mut out = vec![Value::Array(vec![]), Value::Array(xs.clone())];
+        out.extend(xs.into_iter().take(3));
+        out
+    } else {
+        let mut out = single(&f.kind());
+        out.push(Value::Null);
+        out.push(Value::Array(vec![]));
+        out
     }
 }
 
@@ -761,6 +839,19 @@ pub fn generate(sink: &mut Sink, rng: &mut Rng, n: u64) {
             e.desc.fields().any(|f| f.is_map() || matches!(f.kind(), Kind::Float | Kind::Double | Kind::Enum(_) | Kind::Uint32 | Kind::Bytes))
         })
         .collect();
+    // every field of every message type alone, at each edge value of its kind (deterministic)
+    for e in cat {
+        for f in e.desc.fields() {
+            for v in edge_values(&f) {
+                let mut m = ObjectMap::new();
+                m.insert(f.name().into(), v);
+                let args = [e.id.clone(), e.pool_text.clone(), show_value(&Value::Object(m))];
+                sink.emit("c26.rt", &args);
+                sink.emit("o.c26", &args);
+                sink.count("c26:edge_field_cases");
+            }
+        }
+    }
     for i in 0..n {
         let e = if i % 3 == 2 && !rich.is_empty() { rich[(i / 3 % rich.len() as u64) as usize] } else { &cat[(i % cat.len() as u64) as usize] };
         let clean = rng.chance(3, 5);
